@@ -8,6 +8,7 @@ operations with `parsePath/parent`, and of `NixPath.resolved_path` with the reci
 
 Oracle (implementation only, independent of the model and of the code's path plumbing): the kernel.
 Each hop's target is `os.stat(<canonical directory of the file that contains the literal>/<literal>)`
+(`os.stat(<home directory>/x)` for a `~/x` literal; HOME is set to a directory of the temporary tree)
 and the file it names is recognised by its inode; the expected result is the value planted in that
 file by the generator.
 """
@@ -512,10 +513,11 @@ class Batch:
                      observed=real, required=want)
         files, dirs = sx_fs(layout, base, home, extra_dirs=[cwd_abs])
         ks = [hx(k) for k in keys]
-        self.reqs.append(["fslookup", "impl", files, dirs, hx(cwd_abs), hx(entry_abs), ks])
+        # the home path the code sees: HOME as run_real sets it, else the process's own
+        home_text = hx(home if home is not None else os.path.expanduser("~"))
+        self.reqs.append(["fslookup", ["impl", home_text], files, dirs, hx(cwd_abs), hx(entry_abs), ks])
         self.meta.append(("impl", real, inp))
-        mode = ["spechome", hx(home)] if home is not None else "spec"
-        self.reqs.append(["fslookup", mode, files, dirs, hx(cwd_abs), hx(entry_abs), ks])
+        self.reqs.append(["fslookup", ["spec", home_text], files, dirs, hx(cwd_abs), hx(entry_abs), ks])
         self.meta.append(("spec", want, inp))
         ctx.count("outcome:" + (real[1] if real[0] == "err" else "ok-" + real[1][0]))
         for k in kinds:
@@ -600,6 +602,9 @@ def explore(ctx, n_layouts, depth, max_hops, chains_per_layout, n_cwds, observe=
 # ---------------------------------------------------------------- pure-path correspondence
 PATH_ALPHABET = ["a", ".", "/", "~", "<", ">"]
 SRCS = [None, "x.nix", "d/x.nix", "/r/d/x.nix", "../x.nix", "d/../x.nix", "..", ".", "/"]
+# values of $HOME under which `resolved_path` is run on texts that start with `~` (nothing is read
+# from the filesystem): canonical, the root, with `..` and a trailing slash, relative, doubled slash
+HOMES = ["/hm/u", "/", "/a/../b/", "rel/h", "/x//y"]
 
 
 def pure_correspondence(ctx, max_len):
@@ -607,23 +612,36 @@ def pure_correspondence(ctx, max_len):
 
     reqs, expect, what = [], [], []
     texts = ["".join(t) for L in range(0, max_len + 1) for t in itertools.product(PATH_ALPHABET, repeat=L)]
-    texts += ["./a/b.nix", "../../a", "//a", "///a", "a//b/", "~/a", "<a/b>", "a/./b", "/..", "./.", "ä/ö", "a b/c"]
-    for s in texts:
-        p = Path(s)
-        parts = [x for x in p.parts if x != p.anchor]
-        reqs.append(["pathops", hx(s)])
-        expect.append(["ok", "t" if p.is_absolute() else "f", [hx(x) for x in parts],
-                       [hx(x) for x in p.parent.parts if x != p.parent.anchor]])
-        what.append(("pathlib", s, None))
-        for src in (SRCS if len(s) <= max_len - 1 else SRCS[:3]):
-            try:
-                r = NixPath(path=s, source_path=None if src is None else Path(src)).resolved_path()
-                e = ["ok", "t" if r.is_absolute() else "f", [hx(x) for x in r.parts if x != r.anchor]]
-            except Exception as exc:  # noqa: BLE001
-                e = ["err", exc_class(exc)]
-            reqs.append(["resolved", hx(s), "none" if src is None else hx(src)])
-            expect.append(e)
-            what.append(("resolved_path", s, src))
+    texts += ["./a/b.nix", "../../a", "//a", "///a", "a//b/", "~/a", "<a/b>", "a/./b", "/..", "./.", "ä/ö", "a b/c",
+              "~/a/../b.nix", "~/.config/x.nix", "~//a", "~/~/a", "<~/a>", "~a/b", "~/./a"]
+    old_home = os.environ.get("HOME")
+    try:
+        for s in texts:
+            p = Path(s)
+            parts = [x for x in p.parts if x != p.anchor]
+            reqs.append(["pathops", hx(s)])
+            expect.append(["ok", "t" if p.is_absolute() else "f", [hx(x) for x in parts],
+                           [hx(x) for x in p.parent.parts if x != p.parent.anchor]])
+            what.append(("pathlib", s, None, None))
+            for hm in (HOMES if s.startswith("~") else HOMES[:1]):
+                os.environ["HOME"] = hm
+                home_text = os.path.expanduser("~")  # what Path.home() / expanduser() start from
+                for src in (SRCS if len(s) <= max_len - 1 else SRCS[:3]):
+                    try:
+                        r = NixPath(path=s, source_path=None if src is None else Path(src)).resolved_path()
+                        e = ["ok", "t" if r.is_absolute() else "f", [hx(x) for x in r.parts if x != r.anchor]]
+                    except Exception as exc:  # noqa: BLE001
+                        e = ["err", exc_class(exc)]
+                    reqs.append(["resolved", hx(s), "none" if src is None else hx(src), hx(home_text)])
+                    expect.append(e)
+                    what.append(("resolved_path", s, src, hm))
+                    if s.startswith("~/"):
+                        ctx.count("pure_home_literal_requests")
+    finally:
+        if old_home is None:
+            os.environ.pop("HOME", None)
+        else:
+            os.environ["HOME"] = old_home
     replies = ctx.driver.ask_many(reqs)
     ctx.corr_checked += len(reqs)
     bad = 0
@@ -631,7 +649,7 @@ def pure_correspondence(ctx, max_len):
         if ex != got:
             bad += 1
             if bad <= 3:
-                ctx.tie_break("correspondence", f"{w[0]} disagrees on {w[1]!r} (source_path={w[2]!r})",
+                ctx.tie_break("correspondence", f"{w[0]} disagrees on {w[1]!r} (source_path={w[2]!r}, HOME={w[3]!r})",
                               implementation=ex, model=got)
     ctx.count("pure_path_requests", len(reqs))
     ctx.count("pure_path_disagreements", bad)
@@ -639,7 +657,9 @@ def pure_correspondence(ctx, max_len):
 
 # ---------------------------------------------------------------- fixed cases (always run first)
 def fixed_cases(ctx):
-    """The witness of the known finding (Lean: C17.cex_home) and the repository's own fixtures shape."""
+    """The witness of the repaired finding C17-home-literal (Lean: C17.home_literal_reads_home; before
+    the repair C17.cex_home): `import ~/h.nix` must read $HOME/h.nix, not the `~` directory next to the
+    importing file, from every working directory."""
     layout = {
         "dirs": ["w", "w/~", "home", "empty"],
         "files": {
@@ -651,7 +671,7 @@ def fixed_cases(ctx):
 
     def body(lay, base, home, inodes):
         batch = Batch(ctx)
-        for cwd_rel, entry in (("w", "a.nix"), ("", "w/a.nix"), ("empty", "$BASE/w/a.nix")):
+        for cwd_rel, entry in (("w", "a.nix"), ("", "w/a.nix"), ("empty", "$BASE/w/a.nix"), ("home", "$BASE/w/a.nix")):
             batch.add(lay, base, home, inodes, cwd_rel, entry, ["h", "v"], False)
             ctx.case({"fixed": "home-literal", "cwd": cwd_rel, "entry": entry})
         batch.flush()
@@ -668,7 +688,8 @@ def run(ctx: fw.Ctx):
         "construction; each chain under 3 (quick) / 4 working directories (the entry's directory, the tree root, "
         "other directories, / or /tmp) x 3 spellings of the entry (absolute, relative, ./, detour, doubled slashes; "
         "str and Path). Non-trivial = at least one import hop followed and the entry spelled relative or the "
-        "working directory different from the entry's directory. Pure paths: every string <= 5 (6) over {a . / ~ < >}."
+        "working directory different from the entry's directory. Pure paths: every string <= 5 (6) over {a . / ~ < >}, "
+        "those starting with ~ under 5 values of HOME (canonical, /, with .. and trailing slash, relative, doubled slash)."
     )
     ctx.trusted_base = [
         "Lean 4 kernel; axioms propext, Classical.choice, Quot.sound only",
@@ -676,13 +697,14 @@ def run(ctx: fw.Ctx):
         "correspondence harness (this file) and the driver's hex line protocol",
         "the Linux kernel's path resolution (os.stat + inode identity) as the independent observer of which file a path names",
         "SPEC definitions specTarget / specGet / specFrom / FS.locateFrom (Model/Paths.lean)",
-        "CPython pathlib pure-path semantics (modelled by parsePath/parent/join; checked by correspondence)",
+        "CPython pathlib pure-path semantics (modelled by parsePath/parent/join/expanduser; checked by correspondence)",
     ]
     ctx.assumptions = [
         "NoSymlinks: the filesystem model has no symbolic links (lexical `.parent` vs physical `..` differ across symlinks); generated trees contain none and the temporary directory is canonicalised with realpath",
         "the working directory does not change between parse_file and the lookups (configurations, not histories)",
         "files are valid Nix whose top level is an attribute set (possibly under let / lambda / rec) or a non-set; a top-level `import` expression and directories-as-default.nix are outside the model (both fail loudly in the code)",
         "path literals without interpolation; attribute names are plain identifiers",
+        "the home path is what os.path.expanduser('~') returns (HOME, set by the harness to a directory of the temporary tree for layouts with `~/` literals); `~user` is not a Nix path literal and the password database is outside the model",
     ]
     fixed_cases(ctx)
     pure_correspondence(ctx, 5 if ctx.quick else 6)
